@@ -191,8 +191,16 @@ theorem round_away_f32_correct (x : ℚ) :
   rw [← roundAwayFix_eq, ← roundAwayFix_cast]
   simp only [mkRat_half, mkRat_one]
   by_cases h : (if x < 0 then -x else x) - ((ratFloor (if x < 0 then -x else x) : ℤ) : ℚ) ≥ 1 / 2
-  · simp only [h, decide_true, if_true]
-  · simp only [h, decide_false, Bool.false_eq_true, if_false]
+  -- the tail is written for any algebraically equal formulation of the magnitude
+  -- (`Where(c, f+1, f)`, `f + Cast(c)`, …): evaluate what is left, then compare in ℚ
+  · first
+      | (simp only [h, decide_true, if_true]; done)
+      | (simp [h, DT.isInt]; split_ifs <;> ring)
+      | (simp [h, DT.isInt]; done)
+  · first
+      | (simp only [h, decide_false, Bool.false_eq_true, if_false]; done)
+      | (simp [h, DT.isInt]; split_ifs <;> ring)
+      | (simp [h, DT.isInt]; done)
 
 -- regression example (about ONNX Round alone, not about /repo's current recipe): the lowering that
 -- was repaired — a bare `Round` — does not implement AWAY_FROM_ZERO at the tie 1/2.
